@@ -256,6 +256,8 @@ impl FragmentedMuxer {
 // ============================================================================
 
 fn build_box(typ: &[u8; 4], payload: &[u8]) -> Vec<u8> {
+    #[cfg(feature = "verif")]
+    crate::verif::cast("fmp4.box.size", 8 + payload.len() as i128, 32, false);
     let size = (8 + payload.len()) as u32;
     let mut buf = Vec::with_capacity(size as usize);
     buf.extend_from_slice(&size.to_be_bytes());
@@ -361,6 +363,10 @@ fn build_tkhd_fmp4(config: &FragmentConfig) -> Vec<u8> {
     payload.extend_from_slice(&[0u8; 12]);
     payload.extend_from_slice(&0x4000_0000_u32.to_be_bytes());
     // Width and height in fixed-point 16.16
+    #[cfg(feature = "verif")]
+    crate::verif::cast("fmp4.tkhd.width", config.width as i128, 16, false);
+    #[cfg(feature = "verif")]
+    crate::verif::cast("fmp4.tkhd.height", config.height as i128, 16, false);
     payload.extend_from_slice(&((config.width) << 16).to_be_bytes());
     payload.extend_from_slice(&((config.height) << 16).to_be_bytes());
     build_box(b"tkhd", &payload)
@@ -511,7 +517,11 @@ fn build_avc1_fmp4(config: &FragmentConfig) -> Vec<u8> {
     payload.extend_from_slice(&0u16.to_be_bytes()); // Pre-defined
     payload.extend_from_slice(&0u16.to_be_bytes()); // Reserved
     payload.extend_from_slice(&[0u8; 12]); // Pre-defined
+    #[cfg(feature = "verif")]
+    crate::verif::cast("fmp4.sample_entry.width", config.width as i128, 16, false);
     payload.extend_from_slice(&(config.width as u16).to_be_bytes());
+    #[cfg(feature = "verif")]
+    crate::verif::cast("fmp4.sample_entry.height", config.height as i128, 16, false);
     payload.extend_from_slice(&(config.height as u16).to_be_bytes());
     payload.extend_from_slice(&0x0048_0000_u32.to_be_bytes()); // Horizontal resolution (72 dpi)
     payload.extend_from_slice(&0x0048_0000_u32.to_be_bytes()); // Vertical resolution (72 dpi)
@@ -535,7 +545,11 @@ fn build_hvc1_fmp4(config: &FragmentConfig) -> Vec<u8> {
     payload.extend_from_slice(&0u16.to_be_bytes()); // Pre-defined
     payload.extend_from_slice(&0u16.to_be_bytes()); // Reserved
     payload.extend_from_slice(&[0u8; 12]); // Pre-defined
+    #[cfg(feature = "verif")]
+    crate::verif::cast("fmp4.sample_entry.width", config.width as i128, 16, false);
     payload.extend_from_slice(&(config.width as u16).to_be_bytes());
+    #[cfg(feature = "verif")]
+    crate::verif::cast("fmp4.sample_entry.height", config.height as i128, 16, false);
     payload.extend_from_slice(&(config.height as u16).to_be_bytes());
     payload.extend_from_slice(&0x0048_0000_u32.to_be_bytes()); // Horizontal resolution (72 dpi)
     payload.extend_from_slice(&0x0048_0000_u32.to_be_bytes()); // Vertical resolution (72 dpi)
@@ -561,9 +575,13 @@ fn build_avcc_fmp4(config: &FragmentConfig) -> Vec<u8> {
         0xff, // 6 bits reserved + 2 bits NAL unit length - 1 (3 = 4 bytes)
         0xe1, // 3 bits reserved + 5 bits number of SPS
     ];
+    #[cfg(feature = "verif")]
+    crate::verif::cast("fmp4.cfg.sps_len", config.sps.len() as i128, 16, false);
     payload.extend_from_slice(&(config.sps.len() as u16).to_be_bytes());
     payload.extend_from_slice(&config.sps);
     payload.push(1); // Number of PPS
+    #[cfg(feature = "verif")]
+    crate::verif::cast("fmp4.cfg.pps_len", config.pps.len() as i128, 16, false);
     payload.extend_from_slice(&(config.pps.len() as u16).to_be_bytes());
     payload.extend_from_slice(&config.pps);
     build_box(b"avcC", &payload)
@@ -621,6 +639,8 @@ fn build_hvcc_fmp4(config: &FragmentConfig) -> Vec<u8> {
     if let Some(vps) = &config.vps {
         payload.push(0b10100000); // array_completeness=1, reserved=0, nal_unit_type=32 (VPS)
         payload.extend_from_slice(&(1u16).to_be_bytes()); // numNalus
+        #[cfg(feature = "verif")]
+        crate::verif::cast("fmp4.cfg.vps_len", vps.len() as i128, 16, false);
         payload.extend_from_slice(&(vps.len() as u16).to_be_bytes()); // nalUnitLength
         payload.extend_from_slice(vps);
     }
@@ -628,12 +648,16 @@ fn build_hvcc_fmp4(config: &FragmentConfig) -> Vec<u8> {
     // SPS array
     payload.push(0b10100001); // array_completeness=1, reserved=0, nal_unit_type=33 (SPS)
     payload.extend_from_slice(&(1u16).to_be_bytes()); // numNalus
+    #[cfg(feature = "verif")]
+    crate::verif::cast("fmp4.cfg.sps_len", config.sps.len() as i128, 16, false);
     payload.extend_from_slice(&(config.sps.len() as u16).to_be_bytes()); // nalUnitLength
     payload.extend_from_slice(&config.sps);
 
     // PPS array
     payload.push(0b10100010); // array_completeness=1, reserved=0, nal_unit_type=34 (PPS)
     payload.extend_from_slice(&(1u16).to_be_bytes()); // numNalus
+    #[cfg(feature = "verif")]
+    crate::verif::cast("fmp4.cfg.pps_len", config.pps.len() as i128, 16, false);
     payload.extend_from_slice(&(config.pps.len() as u16).to_be_bytes()); // nalUnitLength
     payload.extend_from_slice(&config.pps);
 
@@ -647,7 +671,11 @@ fn build_av01_fmp4(config: &FragmentConfig) -> Vec<u8> {
     payload.extend_from_slice(&0u16.to_be_bytes()); // Pre-defined
     payload.extend_from_slice(&0u16.to_be_bytes()); // Reserved
     payload.extend_from_slice(&[0u8; 12]); // Pre-defined
+    #[cfg(feature = "verif")]
+    crate::verif::cast("fmp4.sample_entry.width", config.width as i128, 16, false);
     payload.extend_from_slice(&(config.width as u16).to_be_bytes());
+    #[cfg(feature = "verif")]
+    crate::verif::cast("fmp4.sample_entry.height", config.height as i128, 16, false);
     payload.extend_from_slice(&(config.height as u16).to_be_bytes());
     payload.extend_from_slice(&0x0048_0000_u32.to_be_bytes()); // Horizontal resolution (72 dpi)
     payload.extend_from_slice(&0x0048_0000_u32.to_be_bytes()); // Vertical resolution (72 dpi)
@@ -682,7 +710,11 @@ fn build_vp09_fmp4(config: &FragmentConfig) -> Vec<u8> {
     payload.extend_from_slice(&0u16.to_be_bytes()); // Pre-defined
     payload.extend_from_slice(&0u16.to_be_bytes()); // Reserved
     payload.extend_from_slice(&[0u8; 12]); // Pre-defined
+    #[cfg(feature = "verif")]
+    crate::verif::cast("fmp4.sample_entry.width", config.width as i128, 16, false);
     payload.extend_from_slice(&(config.width as u16).to_be_bytes());
+    #[cfg(feature = "verif")]
+    crate::verif::cast("fmp4.sample_entry.height", config.height as i128, 16, false);
     payload.extend_from_slice(&(config.height as u16).to_be_bytes());
     payload.extend_from_slice(&0x0048_0000_u32.to_be_bytes()); // Horizontal resolution (72 dpi)
     payload.extend_from_slice(&0x0048_0000_u32.to_be_bytes()); // Vertical resolution (72 dpi)
@@ -747,6 +779,8 @@ fn build_media_segment(
     segment.extend_from_slice(&moof);
 
     // mdat header
+    #[cfg(feature = "verif")]
+    crate::verif::cast("fmp4.mdat.size", 8 + mdat_payload_size as i128, 32, false);
     let mdat_size = (8 + mdat_payload_size) as u32;
     segment.extend_from_slice(&mdat_size.to_be_bytes());
     segment.extend_from_slice(b"mdat");
@@ -850,9 +884,23 @@ fn build_trun(samples: &[FragmentSample], data_offset: u32) -> Vec<u8> {
     for (i, sample) in samples.iter().enumerate() {
         // Sample duration (estimate from DTS delta)
         let duration = if i + 1 < samples.len() {
+            #[cfg(feature = "verif")]
+            crate::verif::cast(
+                "fmp4.trun.duration",
+                samples[i + 1].dts as i128 - sample.dts as i128,
+                32,
+                false,
+            );
             (samples[i + 1].dts - sample.dts) as u32
         } else if i > 0 {
             // Use previous duration for last sample
+            #[cfg(feature = "verif")]
+            crate::verif::cast(
+                "fmp4.trun.duration",
+                sample.dts as i128 - samples[i - 1].dts as i128,
+                32,
+                false,
+            );
             (sample.dts - samples[i - 1].dts) as u32
         } else {
             3000 // Default: 1 frame at 30fps
@@ -860,6 +908,8 @@ fn build_trun(samples: &[FragmentSample], data_offset: u32) -> Vec<u8> {
         payload.extend_from_slice(&duration.to_be_bytes());
 
         // Sample size
+        #[cfg(feature = "verif")]
+        crate::verif::cast("fmp4.trun.size", sample.data.len() as i128, 32, false);
         payload.extend_from_slice(&(sample.data.len() as u32).to_be_bytes());
 
         // Sample flags
@@ -873,6 +923,13 @@ fn build_trun(samples: &[FragmentSample], data_offset: u32) -> Vec<u8> {
         payload.extend_from_slice(&flags.to_be_bytes());
 
         // Composition time offset (signed, pts - dts)
+        #[cfg(feature = "verif")]
+        crate::verif::cast(
+            "fmp4.trun.cts",
+            sample.pts as i128 - sample.dts as i128,
+            32,
+            true,
+        );
         let cts = (sample.pts as i64 - sample.dts as i64) as i32;
         payload.extend_from_slice(&cts.to_be_bytes());
     }
@@ -1005,5 +1062,34 @@ mod tests {
         let config = FragmentConfig::default();
         let mut muxer = FragmentedMuxer::new(config);
         assert!(muxer.flush_segment().is_none());
+    }
+}
+
+#[cfg(feature = "verif")]
+impl FragmentedMuxer {
+    /// Canonical rendering of the muxer's logical state (verification hook).
+    /// The init-segment cache is reported separately because filling it is
+    /// not a change of logical state.
+    pub fn verif_snapshot(&self) -> String {
+        let mut q = String::new();
+        for x in &self.samples {
+            q.push_str(&format!(
+                "({},{},{},{:x},{})",
+                x.pts,
+                x.dts,
+                x.data.len(),
+                crate::verif::fnv(&x.data),
+                x.is_sync
+            ));
+        }
+        format!(
+            "f{{q=[{}] seq={} base={} last_dts={:?}}}",
+            q, self.sequence_number, self.base_media_decode_time, self.last_dts
+        )
+    }
+
+    /// Number of samples currently queued (verification hook).
+    pub fn verif_queued(&self) -> usize {
+        self.samples.len()
     }
 }
